@@ -27,7 +27,7 @@ SUPPLIERS = ["float", "zero_d", "npscalar", "pchip", "const", "reduce", "branchi
 
 
 def plan(tier, seed):
-    n = 4000 if tier == "quick" else 200000
+    n = 10000 if tier == "quick" else 600000
     return [{"kind": "random", "start": p * (n // NSHARDS), "count": n // NSHARDS} for p in range(NSHARDS)] + \
         [{"kind": "suite"}]
 
